@@ -1,6 +1,8 @@
 package checks
 
 import (
+	"strings"
+	"sync/atomic"
 	"encoding/json"
 	"fmt"
 	"regexp"
@@ -26,6 +28,25 @@ type c11Thread struct {
 	Seed int64  `json:",omitempty"`
 	Lang int    `json:",omitempty"`
 	Def  string `json:",omitempty"`
+	// Off: configuration switches that differ from the all-on default (bit 0 DisableBitwiseOp, 1 Fate off, 2 CoC off, 3 WoD off,
+	// 4 Double Cross off, 5 DisableStmts, 6 DisableNDice); Max: DiceMaxMode (deterministic dice)
+	Off int  `json:",omitempty"`
+	Max bool `json:",omitempty"`
+	// Fresh: every '@' in Src and Def is replaced by a number that is new for every RUN (one isolated evaluation, or one
+	// schedule with all its VMs) of the process: anything keyed by program text has then never been seen by the baseline
+	// run, while the VMs of one concurrent run do collide on it
+	Fresh bool `json:",omitempty"`
+}
+
+var c11Uniq int64
+
+// c11FreshTexts: the same text means different things under different configurations
+var c11FreshTexts = []struct {
+	src, def string
+	off      int
+}{
+	{"2d + 1 + 0*@", "4|8 + 0*@", 1}, {"1|2 + 0*@", "", 1}, {"f + 0*@", "", 2}, {"2d + 0*@", "f + 5 + 0*@", 2}, {"b + 0*@", "", 4}, {"d + 0*@", "b + 0*@", 4}, {"2a10 + 0*@", "", 8}, {"2c10 + 0*@", "", 16},
+	{"if 1 { 2 + 0*@ }", "", 32}, {"3d + 0*@", "2d4 + 0*@", 64}, {"2d6 + 0*@", "", 64},
 }
 
 var c11ShimInstall func(e *sched.Exec)
@@ -57,7 +78,21 @@ func c11Enumerate(tier string, seed int64, emit func(string, any)) {
 			if thorough || (i+j)%5 == 0 {
 				emit("sched/2 VMs bound 2", c11Case{Kind: "sched", Threads: []c11Thread{c11Pool[i], c11Pool[j]}, Bound: 2})
 			}
-			emit("race/2 VMs", c11Case{Kind: "race", Threads: []c11Thread{c11Pool[i], c11Pool[j]}, Reps: 8})
+			reps := 5
+			if thorough {
+				reps = 8
+			}
+			emit("race/2 VMs", c11Case{Kind: "race", Threads: []c11Thread{c11Pool[i], c11Pool[j]}, Reps: reps})
+		}
+	}
+	// the same text under different configurations (fresh per run): whatever is keyed by text must also be keyed by the VM
+	for _, ft := range c11FreshTexts {
+		a := c11Thread{Src: ft.src, Def: ft.def, Max: true, Fresh: true}
+		b := a
+		b.Off = ft.off
+		for _, pair := range [][]c11Thread{{a, b}, {b, a}} {
+			emit("sched/same text, different configuration", c11Case{Kind: "sched", Threads: pair, Bound: 1})
+			emit("race/same text, different configuration", c11Case{Kind: "race", Threads: pair, Reps: 4})
 		}
 	}
 	// shared built-in tables at mutex / atomic granularity (needs the overlay build): programs that look methods up
@@ -72,7 +107,7 @@ func c11Enumerate(tier string, seed int64, emit func(string, any)) {
 			emit("shim/2 VMs at ValueMap granularity", c11Case{Kind: "shim", Threads: []c11Thread{a, b}, Bound: 1})
 		}
 	}
-	m := 8
+	m := 6
 	if thorough {
 		m = 20
 	}
@@ -91,6 +126,7 @@ func c11Enumerate(tier string, seed int64, emit func(string, any)) {
 
 type c11Obs struct {
 	err, ret, detail string
+	rest             string
 	rolled           bool
 	held             error // the error object; rendered again after all VMs have finished
 }
@@ -98,22 +134,40 @@ type c11Obs struct {
 func c11NewVM(t c11Thread) *ds.Context {
 	cfg := drv.AllOn()
 	cfg.Seed, cfg.Lang, cfg.DefExpr = t.Seed, t.Lang, t.Def
+	cfg.NoBitwise, cfg.Fate, cfg.CoC, cfg.WoD, cfg.DC = t.Off&1 != 0, t.Off&2 == 0, t.Off&4 == 0, t.Off&8 == 0, t.Off&16 == 0
+	cfg.NoStmts, cfg.NoNDice, cfg.Max = t.Off&32 != 0, t.Off&64 != 0, t.Max
 	cfg.OpLimit = 20000
 	vm := drv.NewVM(cfg)
 	vm.Config.CallbackSt = func(_type string, name string, val *ds.VMValue, extra *ds.VMValue, op string, detail string) {}
 	return vm
 }
 
-func c11Body(t c11Thread) c11Obs {
+var reFresh = regexp.MustCompile(`0\*\d+`)
+
+// c11Body evaluates one thread; uniq is the run's fresh number (see c11Thread.Fresh)
+func c11Body(t c11Thread, uniq int64) c11Obs {
+	if t.Fresh {
+		u := strconv.FormatInt(uniq, 10)
+		t.Src, t.Def = strings.ReplaceAll(t.Src, "@", u), strings.ReplaceAll(t.Def, "@", u)
+	}
 	vm := c11NewVM(t)
 	var o c11Obs
+	norm := func(x string) string {
+		if t.Fresh {
+			return reFresh.ReplaceAllString(x, "0*#")
+		}
+		return x
+	}
 	if err := vm.Run(t.Src); err != nil {
-		o.err = err.Error()
-		o.held = err
+		o.err = norm(err.Error())
+		if !t.Fresh {
+			o.held = err
+		}
 		return o
 	}
 	o.ret = drv.Canon(vm.Ret)
-	o.detail = vm.GetDetailText()
+	o.detail = norm(vm.GetDetailText())
+	o.rest = norm(vm.RestInput)
 	return o
 }
 
@@ -138,7 +192,7 @@ func c11Run(raw json.RawMessage) harn.Result {
 	iso := make([]c11Obs, len(c.Threads))
 	for i, t := range c.Threads {
 		ds.VerifSeedGlobal(uint64(7 + i))
-		iso[i] = c11Body(t)
+		iso[i] = c11Body(t, atomic.AddInt64(&c11Uniq, 1))
 		iso[i].held = nil
 	}
 	compare := func(i int, got c11Obs, where string) {
@@ -176,9 +230,10 @@ func c11Run(raw json.RawMessage) harn.Result {
 				ds.VerifResetBuiltinTables() // every execution starts from the tables' start-up (unpromoted) state
 			}
 			var bodies []func()
+			u := atomic.AddInt64(&c11Uniq, 1)
 			for i := range c.Threads {
 				i := i
-				bodies = append(bodies, func() { got[i] = c11Body(c.Threads[i]) })
+				bodies = append(bodies, func() { got[i] = c11Body(c.Threads[i], u) })
 			}
 			return bodies
 		}
@@ -221,6 +276,7 @@ func c11Run(raw json.RawMessage) harn.Result {
 			var wg, ready sync.WaitGroup
 			start := make(chan struct{})
 			got := make([]c11Obs, len(c.Threads))
+			u := atomic.AddInt64(&c11Uniq, 1)
 			for i := range c.Threads {
 				wg.Add(1)
 				ready.Add(1)
@@ -228,7 +284,7 @@ func c11Run(raw json.RawMessage) harn.Result {
 					defer wg.Done()
 					ready.Done()
 					<-start
-					got[i] = c11Body(c.Threads[i])
+					got[i] = c11Body(c.Threads[i], u)
 				}(i)
 			}
 			ready.Wait()
@@ -274,7 +330,7 @@ func diceInRange(src, ret string) string {
 func init() {
 	harn.Register(&harn.Check{
 		ID:   "C11",
-		Rule: "shim stratum: for every ordered pair of the method-using programs, additionally every mutex / atomic operation inside ValueMap is a scheduling point (sync-shim overlay build) and the shared built-in method tables are put back into their start-up state before every execution, preemption bound 1. sched strata: for every ordered pair (and a family of triples) of thread bodies from a 40-program pool chosen to collide (unseeded dice on the shared generator, seeded dice, shared native function objects and bound-method cloning, syntax errors under different languages, DefaultDiceSideExpr, computed values, functions, templates, st), each on its OWN VM, every schedule with <= 1 (a fifth: 2) preemptions at every instruction boundary of every sub-VM (VerifStep), every hooked access to package-level state (VerifShared) and the Parse entry/run points is executed; each seeded or dice-free VM must return exactly the value, error text and detail text of its isolated run; unseeded VMs the same shape, error text and in-range dice. race strata: the same thread bodies for every ordered pair (and triples) run free on real goroutines behind a start barrier, 8 (4) repetitions, in a -race build; any data-race report kills the worker and is attributed to the pair. Distinct by thread list; all non-trivial (two or more VMs).",
+		Rule: "shim stratum: for every ordered pair of the method-using programs, additionally every mutex / atomic operation inside ValueMap is a scheduling point (sync-shim overlay build) and the shared built-in method tables are put back into their start-up state before every execution, preemption bound 1. sched strata: for every ordered pair (and a family of triples) of thread bodies from a 40-program pool chosen to collide (unseeded dice on the shared generator, seeded dice, shared native function objects and bound-method cloning, syntax errors under different languages, DefaultDiceSideExpr, computed values, functions, templates, st), each on its OWN VM, every schedule with <= 1 (a fifth: 2) preemptions at every instruction boundary of every sub-VM (VerifStep), every hooked access to package-level state (VerifShared) and the Parse entry/run points is executed; each seeded or dice-free VM must return exactly the value, error text and detail text of its isolated run; unseeded VMs the same shape, error text and in-range dice. same text / different configuration: 11 (source, default-sides expression) texts that mean different things under a configuration switch (bitwise, each dice family, statements, NdM), one VM with the switch and one without, both orders, max mode; the texts carry a number that is new for every run of the process, so the isolated baseline has never shared a text-keyed entry with another configuration while the VMs of one concurrent run do collide. race strata: the same thread bodies for every ordered pair (and triples) run free on real goroutines behind a start barrier, 5 (thorough 8; triples 4) repetitions, in a -race build; any data-race report kills the worker and is attributed to the pair. Distinct by thread list; all non-trivial (two or more VMs).",
 		Assume: []string{"interleavings are explored at instruction-boundary / hooked-access granularity under sequential consistency; accesses inside one VM instruction are the race detector's business", "the race pass is a detector run over a complete pair set, not a schedule enumeration"},
 		Enumerate:   c11Enumerate,
 		Run:         c11Run,
